@@ -82,6 +82,19 @@ func asVerifiers(vs []*SpyVerifier) []cose.Verifier {
 	return out
 }
 
+// asDigestVerifiers hands out the same spies with VerifyDigest on offer.
+func asDigestVerifiers(vs []*SpyVerifier) []cose.Verifier {
+	out := make([]cose.Verifier, len(vs))
+	for i, v := range vs {
+		if refcose.HashFor(int64(v.Alg)) != 0 {
+			out[i] = DigestSpyVerifier{v}
+		} else {
+			out[i] = v
+		}
+	}
+	return out
+}
+
 func scenarioC02(r *Run) {
 	t := r.T
 	so := SpecOpts{MaxExtra: 6, MaxSigner: 4, BigOK: bigOK(r, "c02.big")}
@@ -106,6 +119,10 @@ func scenarioC02(r *Run) {
 			func(i int, k *KeyPair, inner cose.Signer) cose.Signer {
 				s := &SpySigner{Inner: inner, Alg: inner.Algorithm()}
 				spies = append(spies, s)
+				if _, ok := inner.(cose.DigestSigner); ok && t.Bool(1, 2, "c02.digestcap") {
+					// the seam offers SignDigest too, like the built-in signers
+					return DigestSpySigner{s}
+				}
 				return s
 			}, false)
 		if err != nil {
@@ -125,8 +142,18 @@ func scenarioC02(r *Run) {
 		}
 		for i, s := range spies {
 			r.Check()
-			if len(s.Calls) != 1 {
-				r.Fail("signer-call-count", "signer %d was called %d times for one signature", i, len(s.Calls))
+			if len(s.Calls)+len(s.DigestCalls) != 1 {
+				r.Fail("signer-call-count", "signer %d was called %d times for one signature", i, len(s.Calls)+len(s.DigestCalls))
+				continue
+			}
+			if len(s.DigestCalls) == 1 {
+				// handed a digest instead of the structure: it must be the
+				// digest of the RFC structure under the signer's algorithm
+				if i < len(want) && !bytes.Equal(s.DigestCalls[0], refcose.Digest(refcose.HashFor(int64(s.Alg)), want[i])) {
+					r.Fail("sign-content-differs/"+spec.Kind.String()+"/constructed/digest",
+						"the digest handed to signer %d (SignDigest) is not the hash of the RFC 9052 Sig_structure of the message as emitted\n got: %x\nwant: %x (hash of %s)\nspec: %s",
+						i, s.DigestCalls[0], refcose.Digest(refcose.HashFor(int64(s.Alg)), want[i]), hexShort(want[i]), spec)
+				}
 				continue
 			}
 			if i < len(want) && !bytes.Equal(s.Calls[0].Content, want[i]) {
@@ -185,10 +212,22 @@ func scenarioC02(r *Run) {
 		return
 	}
 	spies := acceptingVerifiers(pm, keysOf(spec))
-	verr := r.VerifyLib(rc, external, asVerifiers(spies)...)
+	vlist := asVerifiers(spies)
+	if t.Bool(1, 2, "c02.digestcap.v") {
+		vlist = asDigestVerifiers(spies)
+	}
+	verr := r.VerifyLib(rc, external, vlist...)
 	r.Logf("verify: %s", errTag(verr))
 	compared := 0
 	for i, s := range spies {
+		for _, c := range s.DigestCalls {
+			r.Check()
+			compared++
+			if i < len(want) && !bytes.Equal(c.Content, refcose.Digest(refcose.HashFor(int64(s.Alg)), want[i])) {
+				r.Fail("verify-content-differs/"+spec.Kind.String()+"/"+population+"/digest",
+					"the digest handed to verifier %d (VerifyDigest) is not the hash of the RFC 9052 Sig_structure computed from the received bytes\n got: %x\nwant: hash of %s\nwire: %s", i, c.Content, hexShort(want[i]), hexShort(received))
+			}
+		}
 		for j, c := range s.Calls {
 			r.Check()
 			compared++
@@ -221,7 +260,7 @@ func scenarioC02(r *Run) {
 			for j := 0; j < i && pre; j++ {
 				pre = len(rv[j].SigBytes) > 0 && algRule(rv[j].ProtAlg, int64(spies[j].Alg), external) == ""
 			}
-			if pre && len(s.Calls) == 0 {
+			if pre && len(s.Calls)+len(s.DigestCalls) == 0 {
 				r.Check()
 				r.Fail("verifier-not-reached/"+spec.Kind.String(), "payload, signature and algorithm of signature %d are in order, yet its verifier was never called (Verify returned %v)\nwire: %s", i, verr, hexShort(received))
 				return
